@@ -10,6 +10,7 @@ import (
 	"time"
 
 	"0chain.net/core/config"
+	"0chain.net/core/encryption"
 	"github.com/0chain/common/core/currency"
 	"github.com/0chain/common/core/statecache"
 
@@ -582,6 +583,12 @@ func (c *Chain) updateState(ctx context.Context,
 	}
 
 	for _, signedTransfer := range sctx.GetSignedTransfers() {
+		if !encryption.IsHash(signedTransfer.ToClientID) {
+			// same rule as StateContext.AddTransfer: a non-canonical recipient id would never be credited
+			logging.Logger.Error("Failed to process signed transfer - invalid ToClientID",
+				zap.String("signedTransfer_to_ClientID", signedTransfer.ToClientID))
+			return nil, state.ErrInvalidTransfer
+		}
 		tEvents, err := c.transferAmountWithAssert(sctx, signedTransfer.ClientID,
 			signedTransfer.ToClientID, signedTransfer.Amount)
 		if err != nil {
